@@ -105,6 +105,28 @@ var zzIntrinsics = map[string]externalFn{
 		}
 		return a[1]
 	},
+	"zzTagOpens": func(fr *frame, a []value) value {
+		i := fr.i
+		if c, ok := a[0].(string); ok {
+			n, _ := htmlShapeNative(c)
+			return n
+		}
+		t, _ := i.L.htmlShape(i.strOf(a[0]))
+		return i.mkIntT(i.F.Zext(t, 64), types.Int)
+	},
+	"zzTagQuotes": func(fr *frame, a []value) value {
+		i := fr.i
+		if c, ok := a[0].(string); ok {
+			_, n := htmlShapeNative(c)
+			return n
+		}
+		_, q := i.L.htmlShape(i.strOf(a[0]))
+		return i.mkIntT(i.F.Zext(q, 64), types.Int)
+	},
+	"zzContains": func(fr *frame, a []value) value {
+		i := fr.i
+		return i.mkBool(i.L.contains(i.strOf(a[0]), a[1].(string)))
+	},
 	"zzCountByte": func(fr *frame, a []value) value {
 		i := fr.i
 		c := asInt64(a[1])
